@@ -11,7 +11,9 @@ pub(crate) use day_of_week::DayOfWeek;
 pub(crate) use month::Month;
 use year::Year;
 
-use crate::{Interrupt, error::FendError, ident::Ident, result::FResult, value::Value};
+use crate::{
+	Interrupt, error::FendError, ident::Ident, interrupt::test_int, result::FResult, value::Value,
+};
 
 #[derive(Copy, Clone, Eq, PartialEq)]
 pub(crate) struct Date {
@@ -121,17 +123,20 @@ impl Date {
 		})
 	}
 
-	pub(crate) fn diff_months(self, mut months: i64) -> FResult<Self> {
+	pub(crate) fn diff_months<I: Interrupt>(self, mut months: i64, int: &I) -> FResult<Self> {
 		let mut result = self;
 		while months >= 12 {
+			test_int(int)?;
 			result.year = result.year.next()?;
 			months -= 12;
 		}
 		while months <= -12 {
+			test_int(int)?;
 			result.year = result.year.prev()?;
 			months += 12;
 		}
 		while months > 0 {
+			test_int(int)?;
 			if result.month == Month::December {
 				result.month = Month::January;
 				result.year = result.year.next()?;
@@ -141,6 +146,7 @@ impl Date {
 			months -= 1;
 		}
 		while months < 0 {
+			test_int(int)?;
 			if result.month == Month::January {
 				result.month = Month::December;
 				result.year = result.year.prev()?;
@@ -204,6 +210,7 @@ impl Date {
 			let num_days = rhs.try_as_usize_unit(int)?;
 			let mut result = self;
 			for _ in 0..num_days {
+				test_int(int)?;
 				result = result.next()?;
 			}
 			Ok(Value::Date(result))
@@ -219,6 +226,7 @@ impl Date {
 			let num_days = rhs.try_as_usize_unit(int)?;
 			let mut result = self;
 			for _ in 0..num_days {
+				test_int(int)?;
 				result = result.prev()?;
 			}
 			Ok(Value::Date(result))
@@ -226,6 +234,7 @@ impl Date {
 			let num_weeks = rhs.try_as_usize_unit(int)?;
 			let mut result = self;
 			for _ in 0..num_weeks {
+				test_int(int)?;
 				for _ in 0..7 {
 					result = result.prev()?;
 				}
@@ -233,16 +242,20 @@ impl Date {
 			Ok(Value::Date(result))
 		} else if rhs.unit_equal_to("month", int)? {
 			let num_months = rhs.try_as_usize_unit(int)?;
-			let result = self
-				.diff_months(-i64::try_from(num_months).map_err(|_| FendError::ValueTooLarge)?)?;
+			let result = self.diff_months(
+				-i64::try_from(num_months).map_err(|_| FendError::ValueTooLarge)?,
+				int,
+			)?;
 			Ok(Value::Date(result))
 		} else if rhs.unit_equal_to("year", int)? {
 			let num_years = rhs.try_as_usize_unit(int)?;
 			let num_months = num_years
 				.checked_mul(12)
 				.ok_or(FendError::ValueTooLarge)?;
-			let result = self
-				.diff_months(-i64::try_from(num_months).map_err(|_| FendError::ValueTooLarge)?)?;
+			let result = self.diff_months(
+				-i64::try_from(num_months).map_err(|_| FendError::ValueTooLarge)?,
+				int,
+			)?;
 			Ok(Value::Date(result))
 		} else {
 			Err(FendError::ExpectedANumber)
